@@ -14,8 +14,8 @@ fn apply_version(
     transformed_server_ops: &mut Vec<SyncOp>,
     mut version: Version,
 ) -> (r: Result<()>)
-    requires old(txn).inv(), !old(txn).st().committed,
-    ensures final(txn).inv(),
+    requires old(txn).inv(),
+    ensures final(txn).inv(), final(txn).stored() == old(txn).stored(),
         // only the task set changes
         final(txn).st() == (TxnView { tasks: final(txn).st().tasks, ..old(txn).st() }),
         //@ob C01 C02 C03 C04 C20 apply_version.rebase-theorem: for every base state from which both the local operations and the incoming version are valid, the new local operations are valid on top of the incoming version and reproduce the replica's new task set
@@ -33,7 +33,7 @@ fn apply_version(
     for server_op in it_server_op: drain_all(&mut version.operations)
         invariant
             it_server_op.seq() == v,
-            txn.inv(), !txn.st().committed, s0 == old(txn).st(), tasks0 == s0.tasks,
+            txn.inv(), txn.stored() == old(txn).stored(), s0 == old(txn).st(), tasks0 == s0.tasks,
             txn.st() == (TxnView { tasks: txn.st().tasks, ..s0 }),
             forall|b: State| rebase_pre(b, tasks0, l0, v) ==> {
                 let bk = apply_seq(b, v.take(it_server_op.index() as int));
@@ -56,7 +56,7 @@ fn apply_version(
         for local_op in it_local_op: drain_all(local_ops)
             invariant
                 it_local_op.seq() == lk,
-                txn.inv(), !txn.st().committed,
+                txn.inv(), txn.stored() == old(txn).stored(),
                 txn.st() == (TxnView { tasks: txn.st().tasks, ..s0 }),
                 txn.st().tasks == tk,
                 0 <= k < v.len(), s == v[k],
@@ -165,16 +165,16 @@ pub fn sync(
     avoid_snapshots: bool,
 ) -> (r: Result<()>)
     requires
-        old(txn).inv(), !old(txn).st().committed, chain_wf(old(server).chain()),
+        old(txn).inv(), chain_wf(old(server).chain()),
         // the replica invariant (docs/src/sync-model.md) holds for the stored replica w.r.t. the server's chain
         exists|p: int| #[trigger] ri(old(server).chain(), p, old(txn).st().base, old(txn).st().tasks, to_sync(old(txn).st().unsynced)),
     ensures
         final(txn).inv(), chain_wf(final(server).chain()), prefix(old(server).chain(), final(server).chain()),
         //@ob C01 C02 sync.on-success-the-replica-is-exactly-a-version-of-the-chain-with-nothing-pending-and-committed
-        r is Ok ==> final(txn).st().committed && final(txn).st().unsynced.len() == 0
+        r is Ok ==> final(txn).stored() == final(txn).st() && final(txn).st().unsynced.len() == 0
             && exists|p: int| #[trigger] ri(final(server).chain(), p, final(txn).st().base, final(txn).st().tasks, Seq::<SyncOp>::empty()),
-        //@ob C04 sync.any-failure-leaves-the-transaction-uncommitted
-        r is Err ==> !final(txn).st().committed,
+        //@ob C04 sync.any-failure-leaves-the-stored-replica-untouched
+        r is Err ==> final(txn).stored() == old(txn).stored(),
         //@ob C02 sync.a-correct-server-never-causes-OutOfSync
         !(r matches Err(Error::OutOfSync)),
         //@ob C15 sync.does-not-touch-the-working-set
@@ -210,7 +210,7 @@ pub fn sync(
         invariant
             it_op.seq() == st1.unsynced,
             local_ops@ == to_sync(st1.unsynced.take(it_op.index() as int)),
-            txn.inv(), txn.st() == st1, !st1.committed, server.chain() == c1, chain_wf(c1), prefix(c0, c1), c0 == old(server).chain(),
+            txn.inv(), txn.st() == st1, txn.stored() == old(txn).stored(), server.chain() == c1, chain_wf(c1), prefix(c0, c1), c0 == old(server).chain(),
             st1.ws == old(txn).st().ws,
             base_version_id == st1.base,
             ri(c1, p, st1.base, st1.tasks, to_sync(st1.unsynced)),
@@ -234,7 +234,7 @@ pub fn sync(
     loop
         invariant
             c0 == old(server).chain(), chain_wf(server.chain()), prefix(c0, server.chain()),
-            txn.inv(), !txn.st().committed,
+            txn.inv(), txn.stored() == old(txn).stored(),
             txn.st() == (TxnView { tasks: txn.st().tasks, base: txn.st().base, ..st1 }),
             st1.ws == old(txn).st().ws,
             base_version_id == txn.st().base,
@@ -248,7 +248,7 @@ pub fn sync(
         loop
             invariant
                 c0 == old(server).chain(), chain_wf(server.chain()), prefix(c0, server.chain()),
-                txn.inv(), !txn.st().committed,
+                txn.inv(), txn.stored() == old(txn).stored(),
                 txn.st() == (TxnView { tasks: txn.st().tasks, base: txn.st().base, ..st1 }),
                 st1.ws == old(txn).st().ws,
                 base_version_id == txn.st().base,
@@ -403,7 +403,7 @@ pub fn sync(
     proof { assert(local_ops@ =~= Seq::<SyncOp>::empty()); }
     for op in it_op2: transformed_server_ops
         invariant
-            txn.inv(), !txn.st().committed, server.chain() == cf, chain_wf(cf), prefix(c0, cf), c0 == old(server).chain(),
+            txn.inv(), txn.stored() == old(txn).stored(), server.chain() == cf, chain_wf(cf), prefix(c0, cf), c0 == old(server).chain(),
             txn.st() == (TxnView { unsynced: txn.st().unsynced, ..sf }),
             sf.ws == old(txn).st().ws,
     {
